@@ -252,6 +252,36 @@ func buildCorpus() []*vcase {
 	add("compound", func(a *asm) { a.op(opcode.PUSHT, opcode.PUSH0, opcode.PICKITEM) })
 	add("compound", func(a *asm) { a.op(opcode.PUSH0, opcode.SIZE) })
 	add("compound", func(a *asm) { a.op(opcode.PUSHNULL, opcode.SIZE) })
+	// CLEARITEMS then the old keys again (a map must forget its keys, not only its elements)
+	mapClear := func(after func(a *asm)) {
+		add("map", func(a *asm) {
+			a.raw(byte(opcode.INITSSLOT), 1).op(opcode.NEWMAP, opcode.STSFLD0)
+			a.op(opcode.LDSFLD0, opcode.PUSH5, opcode.PUSH1, opcode.SETITEM)
+			a.op(opcode.LDSFLD0, opcode.PUSH6, opcode.PUSH2, opcode.SETITEM)
+			a.op(opcode.LDSFLD0, opcode.CLEARITEMS)
+			after(a)
+			a.op(opcode.LDSFLD0, opcode.DUP, opcode.KEYS, opcode.SWAP, opcode.VALUES)
+		})
+	}
+	mapClear(func(a *asm) { a.op(opcode.LDSFLD0, opcode.PUSH5, opcode.HASKEY) })
+	mapClear(func(a *asm) { a.op(opcode.LDSFLD0, opcode.PUSH5, opcode.PUSH8, opcode.SETITEM) })
+	mapClear(func(a *asm) { a.op(opcode.LDSFLD0, opcode.PUSH3, opcode.PUSH7, opcode.SETITEM, opcode.LDSFLD0, opcode.PUSH5, opcode.PUSH8, opcode.SETITEM) })
+	mapClear(func(a *asm) { a.op(opcode.LDSFLD0, opcode.PUSH6, opcode.REMOVE, opcode.LDSFLD0, opcode.SIZE) })
+	mapClear(func(a *asm) { a.op(opcode.LDSFLD0, opcode.PUSH3, opcode.PUSH7, opcode.SETITEM, opcode.LDSFLD0, opcode.PUSH6, opcode.REMOVE) })
+	mapClear(func(a *asm) {
+		a.try("c", "").op(opcode.LDSFLD0, opcode.PUSH5, opcode.PICKITEM).jmp(opcode.ENDTRY, "e").label("c").jmp(opcode.ENDTRY, "e").label("e")
+	})
+	// remove then re-add; clear an array/struct then append / pick
+	add("map", func(a *asm) {
+		a.op(opcode.NEWMAP, opcode.DUP, opcode.PUSH1, opcode.PUSH1, opcode.SETITEM, opcode.DUP, opcode.PUSH2, opcode.PUSH2, opcode.SETITEM, opcode.DUP, opcode.PUSH3, opcode.PUSH3, opcode.SETITEM)
+		a.op(opcode.DUP, opcode.PUSH1, opcode.REMOVE, opcode.DUP, opcode.PUSH1, opcode.PUSH9, opcode.SETITEM, opcode.DUP, opcode.PUSH3, opcode.PICKITEM, opcode.OVER, opcode.PUSH2, opcode.HASKEY)
+	})
+	add("compound", func(a *asm) {
+		a.op(opcode.PUSH1, opcode.PUSH2, opcode.PUSH2, opcode.PACK, opcode.DUP, opcode.CLEARITEMS, opcode.DUP, opcode.PUSH7, opcode.APPEND, opcode.DUP, opcode.PUSH0, opcode.PICKITEM, opcode.OVER, opcode.SIZE)
+	})
+	add("compound", func(a *asm) {
+		a.op(opcode.PUSH1, opcode.PUSH2, opcode.PUSH2, opcode.PACKSTRUCT, opcode.DUP, opcode.CLEARITEMS, opcode.DUP, opcode.PUSH7, opcode.APPEND, opcode.DUP, opcode.PUSH1, opcode.HASKEY)
+	})
 	// ---- slots
 	add("slots", func(a *asm) { a.raw(byte(opcode.INITSLOT), 0, 0) })
 	add("slots", func(a *asm) { a.raw(byte(opcode.INITSSLOT), 0) })
